@@ -119,4 +119,7 @@ var Registry = map[string]func(c *Ctx, arg string) error{
 		RunBased(c)
 		return nil
 	},
+	"proxy": func(c *Ctx, arg string) error {
+		return RunProxy(c)
+	},
 }
